@@ -127,9 +127,10 @@ class BuildError(Exception):
 class Build:
     """One protoc+plugin run and everything derived from it."""
 
-    def __init__(self, protos: Dict[str, str], opts: str = "", keep: bool = False, extra_includes=()):
+    def __init__(self, protos: Dict[str, str], opts: str = "", keep: bool = False, extra_includes=(), cmdline: str = "all"):
         self.protos = dict(protos)
         self.opts = opts
+        self.cmdline = cmdline  # "all": every file named on the protoc command line; "roots": only files no other file imports
         h = hashlib.sha256(json.dumps([sorted(protos.items()), opts]).encode()).hexdigest()[:10]
         self.root_pkg = f"vfg_{h}_{os.getpid()}_{next(_counter)}"
         os.makedirs(env.WORK, exist_ok=True)
@@ -170,7 +171,14 @@ class Build:
             if self.opts:
                 cmd.append(f"--python_betterproto_opt={self.opts}")
         cmd += ["--include_imports", "--include_source_info", f"--descriptor_set_out={self.fds_path}"]
-        cmd += sorted(self.protos)
+        names = sorted(self.protos)
+        if self.cmdline == "roots" and with_plugin:
+            import re as _re
+
+            imported = {m for t in self.protos.values() for m in _re.findall(r'import\s+(?:public\s+)?"([^"]+)"', t)}
+            roots = [n for n in names if n not in imported]
+            names = roots or names
+        cmd += names
         e = env.child_env({"VERIF_PLUGIN_LOG": self.plugin_log})
         try:
             r = subprocess.run(cmd, capture_output=True, text=True, env=e, cwd=self.dir, timeout=timeout)
